@@ -533,6 +533,8 @@ COMBINATORS = {
     ("std::result::Result", "and_then"): ("Ok", 0, False),
     ("std::result::Result", "or_else"): ("Err", 1, False),
     ("std::option::Option", "map"): ("Some", 0, True),
+    # `r.unwrap_or_else(|e| ..)`: the Ok payload itself, or what the function makes of the error (4th: the other arm is unwrapped)
+    ("std::result::Result", "unwrap_or_else"): ("Err", 1, False, True),
 }
 GOTO = {"exp": False, "macros": [], "false_edge": False, "false_unwind": False}
 
@@ -580,14 +582,15 @@ def _expand_combinators(crate, d, any_receiver=False):
         spec = COMBINATORS.get((rty["path"], fn.get("name")))
         if spec is None or not (fn.get("path") or "").startswith(rty["path"]):
             continue
-        variant, pidx, wraps = spec
+        variant, pidx, wraps = spec[:3]
+        unwraps_other = len(spec) > 3 and spec[3]
         adt = crate.adts.get(rty["path"])
         dty = crate.types[t["dest"]["ty"]]
-        if not adt or dty["k"] != "adt" or dty["path"] != rty["path"]:
+        if not adt or ((dty["k"] != "adt" or dty["path"] != rty["path"]) and not unwraps_other):
             continue
         targs = [a for a in rty["args"] if isinstance(a, int)]
-        dargs = [a for a in dty["args"] if isinstance(a, int)]
-        if len(targs) <= pidx or len(dargs) <= pidx:
+        dargs = [a for a in dty.get("args", []) if isinstance(a, int)] if dty["k"] == "adt" else []
+        if len(targs) <= pidx or (len(dargs) <= pidx and not unwraps_other):
             continue
         if f["k"] == "const" and "fn" not in f:
             continue
@@ -654,8 +657,11 @@ def _expand_combinators(crate, d, any_receiver=False):
                         "rv": {"k": "use", "op": {"k": "move", "place": {"l": rl, "p": [{"k": "downcast", "variant": ov["name"], "idx": ov["idx"]},
                                                                                       {"k": "field", "i": 0, "name": "0", "variant": ov["name"], "ty": o_ty}], "ty": o_ty}}}, "at": at})
             ops = [{"k": "move", "place": {"l": el, "p": [], "ty": o_ty}}]
-        pst.append({"k": "assign", "place": copy.deepcopy(dest),
-                    "rv": {"k": "agg", "ak": "adt", "path": rty["path"], "variant": ov["name"], "vidx": ov["idx"], "fields": list(ov["fields"]), "gargs": list(dargs), "ops": ops}, "at": at})
+        if unwraps_other and ops:
+            pst.append({"k": "assign", "place": copy.deepcopy(dest), "rv": {"k": "use", "op": ops[0]}, "at": at})
+        else:
+            pst.append({"k": "assign", "place": copy.deepcopy(dest),
+                        "rv": {"k": "agg", "ak": "adt", "path": rty["path"], "variant": ov["name"], "vidx": ov["idx"], "fields": list(ov["fields"]), "gargs": list(dargs), "ops": ops}, "at": at})
         blocks.append({"stmts": pst, "term": dict(GOTO, k="goto", target=target, at=at), "synthetic": "combinator", "cleanup": False})
         # the match itself
         blk["stmts"].append({"k": "assign", "place": {"l": dl, "p": [], "ty": isize}, "rv": {"k": "discr", "place": {"l": rl, "p": [], "ty": r["place"]["ty"]}}, "at": at})
